@@ -180,6 +180,22 @@ fn run_case(bits: usize, m: usize, t: usize, seeded: bool, rseed: u64) -> Value 
     drop(st2);
     out["drop_statement"] = disarm_scan(&patterns);
 
+    // phase 4b: statements that live on the heap (a Vec / Box of statements, as handed to verify_batch), built on parameter objects whose
+    // capacity exceeds the statement's aggregation factor: the seed sits inline in the freed block
+    if seeded && m == 1 {
+        for cap in [1usize, 2, 4] {
+            let pc2 = ristretto::create_pedersen_gens_with_extension_degree(ext(t));
+            let params2 = RangeParameters::<RistrettoPoint>::init(bits, cap, pc2).unwrap();
+            let st = RangeStatement::init(params2, vec![commitments[0]], vec![None], Some(seed)).unwrap();
+            let heap = vec![st.clone(), st.clone(), st.clone()];
+            let boxed = Box::new(st);
+            arm();
+            drop(heap);
+            drop(boxed);
+            out[format!("drop_statements_on_heap_cap{}", cap)] = disarm_scan(&patterns);
+        }
+    }
+
     // phase 5: owning types built from vectors whose spare capacity still holds secrets (truncate / drain leave stale copies behind):
     // the whole buffer that held secrets must be wiped, not only its live elements
     let spare: Vec<Scalar> = (0..2).map(|_| Scalar::random(&mut rng)).collect();
